@@ -49,19 +49,25 @@ func ParsimonyAsr(t *tree.Tree, a align.Alignment, algo int, randomResolve bool)
 		}
 	}
 
-	err = parsimonyUPPASS(t.Root(), nil, a, seqs, nsteps, charToIndex)
+	// A tree rooted at a tip (the root has a single neighbour): the passes start from that neighbour,
+	// so that the root is an ordinary tip of the traversal instead of stopping it
+	root := t.Root()
+	if root.Tip() && !root.Neigh()[0].Tip() {
+		root = root.Neigh()[0]
+	}
+	err = parsimonyUPPASS(root, nil, a, seqs, nsteps, charToIndex)
 	if err != nil {
 		return
 	}
 
 	switch algo {
 	case ALGO_DOWNPASS:
-		parsimonyDOWNPASS(t.Root(), nil, a, seqs, upseqs, charToIndex, randomResolve)
+		parsimonyDOWNPASS(root, nil, a, seqs, upseqs, charToIndex, randomResolve)
 	case ALGO_DELTRAN:
-		parsimonyDOWNPASS(t.Root(), nil, a, seqs, upseqs, charToIndex, false)
-		parsimonyDELTRAN(t.Root(), nil, a, seqs, charToIndex, randomResolve)
+		parsimonyDOWNPASS(root, nil, a, seqs, upseqs, charToIndex, false)
+		parsimonyDELTRAN(root, nil, a, seqs, charToIndex, randomResolve)
 	case ALGO_ACCTRAN:
-		parsimonyACCTRAN(t.Root(), nil, a, seqs, charToIndex, randomResolve)
+		parsimonyACCTRAN(root, nil, a, seqs, charToIndex, randomResolve)
 	default:
 		err = fmt.Errorf("parsimony algorithm %d unkown", algo)
 		return
